@@ -115,9 +115,17 @@ def blame_line(a, n, code, pad_a=1, pad_b=1):
 
 
 def gen_attrs(rng, k, authors):
+    """k commits; several commits by one author are common, and rebased / scripted commits even
+    share author *and* time: only the hash tells them apart."""
     out = []
     for i in range(k):
-        out.append(Attr(gen_commit(rng, i), rng.choice(authors), gen_ts(rng), rng.choice(FILES)))
+        a = Attr(gen_commit(rng, i), rng.choice(authors), gen_ts(rng), rng.choice(FILES))
+        if out and rng.random() < 0.35:
+            o = rng.choice(out)
+            a.author = o.author
+            if rng.random() < 0.5:
+                a.ts = o.ts
+        out.append(a)
     return out
 
 
@@ -876,8 +884,12 @@ def run(ctx, rep):
     hook = ctx.hook({"DELTA_VERIF_HOOK_CALLER": "git blame f.txt"})
     mdl = ctx.model("drv_blame") if ctx.drivers_ok else None
     if mdl is not None:
-        v = mdl.ask(["blame.variant", "blame.arms_total"])
+        v = mdl.ask(["blame.variant", "blame.arms_total", "blame.default_items"])
         rep.notes["model_variant"] = dict(author_mode_and_pad_arith=v[0], get_color_arms=v[1])
+        # `Blame.defaultItems` (used by default_key_determines_commit) = what the implementation makes of
+        # the default --blame-format
+        d = hook.ask([cfg_line([]), "blame.format_data"], sticky=[0])[1]
+        rep.corr_case("blame.default_items", d == v[2], dict(op="blame.default_items", impl=d, model=v[2]))
     import time
     widths = char_widths(hook, pool_texts())
     cdata = cfg_data(hook)
